@@ -124,6 +124,10 @@ impl EvaluatedDecisionTable {
       value_null!("decision table has no output clauses")
     }
   }
+  /// Returns the value of the first output entry of every given rule, `None` when a rule has no output entries.
+  fn get_first_output_values(evaluated_rules: &[&EvaluatedRule]) -> Option<Vec<Value>> {
+    evaluated_rules.iter().map(|evaluated_rule| evaluated_rule.output_entry_values.first().cloned()).collect()
+  }
   /// Returns a result composed from values taken from evaluated output entries.
   fn get_results(&self, evaluated_rules: &[&EvaluatedRule]) -> Value {
     let mut values = vec![];
@@ -233,11 +237,10 @@ impl EvaluatedDecisionTable {
     if matching_rules.is_empty() {
       return self.evaluate_default_output_value();
     }
-    let output_values = matching_rules
-      .iter()
-      .map(|evaluated_rule| evaluated_rule.output_entry_values[0].clone())
-      .collect::<Vec<Value>>();
-    dmntk_feel_evaluator::evaluate_sum(output_values)
+    match Self::get_first_output_values(&matching_rules) {
+      Some(output_values) => dmntk_feel_evaluator::evaluate_sum(output_values),
+      None => value_null!("decision table has no output clauses"),
+    }
   }
   ///
   fn evaluate_hit_policy_collect_min(&self) -> Value {
@@ -248,11 +251,10 @@ impl EvaluatedDecisionTable {
     if matching_rules.is_empty() {
       return self.evaluate_default_output_value();
     }
-    let output_values = matching_rules
-      .iter()
-      .map(|evaluated_rule| evaluated_rule.output_entry_values[0].clone())
-      .collect::<Vec<Value>>();
-    dmntk_feel_evaluator::evaluate_min(output_values)
+    match Self::get_first_output_values(&matching_rules) {
+      Some(output_values) => dmntk_feel_evaluator::evaluate_min(output_values),
+      None => value_null!("decision table has no output clauses"),
+    }
   }
   ///
   fn evaluate_hit_policy_collect_max(&self) -> Value {
@@ -263,11 +265,10 @@ impl EvaluatedDecisionTable {
     if matching_rules.is_empty() {
       return self.evaluate_default_output_value();
     }
-    let output_values = matching_rules
-      .iter()
-      .map(|evaluated_rule| evaluated_rule.output_entry_values[0].clone())
-      .collect::<Vec<Value>>();
-    dmntk_feel_evaluator::evaluate_max(output_values)
+    match Self::get_first_output_values(&matching_rules) {
+      Some(output_values) => dmntk_feel_evaluator::evaluate_max(output_values),
+      None => value_null!("decision table has no output clauses"),
+    }
   }
 }
 
